@@ -419,6 +419,7 @@ COMBINATORS = {
     _O + "or": (OPT, {1: ("wrap", OPT, 1), 0: ("arg", 1)}),
     _O + "or_else": (OPT, {1: ("wrap", OPT, 1), 0: ("call0", 1)}),
     _O + "filter": (OPT, {1: ("filter", 1), 0: ("unit", OPT, 0)}),
+    _O + "zip": (OPT, {1: ("zip", 1), 0: ("unit", OPT, 0)}),
     _R + "map": (RES, {0: ("wrapcall", RES, 0, 1), 1: ("wrap", RES, 1)}),
     _R + "map_err": (RES, {0: ("wrap", RES, 0), 1: ("wrapcall", RES, 1, 1)}),
     _R + "and_then": (RES, {0: ("call", 1), 1: ("wrap", RES, 1)}),
@@ -456,6 +457,7 @@ class _Lower:
         self.c = caller
         self.by_id = by_id
         self.ctors = ctors or {}
+        self.lowered_dests = set()
         self.arms = {}       # dest local -> {"cont": block, "arms": [(exit block, adt, variant, payload operand | None)]}
         self.used_closures = []
 
@@ -621,6 +623,31 @@ class _Lower:
                                    "rv": {"r": "ref", "mut": False, "fake": False, "p": {"l": v, "p": []}}, "sp": sp, "lowered": True}],
                                  {"t": "goto", "to": call, "sp": sp})
             return pre, [(ex_some, (OPT, 1, {"c": {"l": v, "p": []}})), (ex_none, (OPT, 0, None))]
+        if kind == "zip":
+            # Some(x) => match other { Some(y) => Some((x, y)), None => None }
+            other = args[action[1]]
+            if payload is None or _place_of(other) is None or dest["p"]:
+                raise _NoLower()
+            dty = self.c["locals"][dest["l"]].get("ty")
+            tty = (_ty_args(dty, OPT) or [None])[0]
+            yty = tty["a"][1] if isinstance(tty, dict) and tty.get("k") == "tuple" and len(tty.get("a", [])) == 2 else None
+            st_y, y = self.payload_of(other, OPT, 1, yty, sp)
+            tup = self.new_local(tty)
+            ex_some = self.new_block([st_y,
+                                      {"s": "assign", "p": {"l": tup, "p": []},
+                                       "rv": {"r": "agg", "kind": "tuple", "ops": [copy.deepcopy(payload), y]}, "sp": sp, "lowered": True},
+                                      self.agg(dest, OPT, 1, [{"m": {"l": tup, "p": []}}], sp)], {"t": "goto", "to": cont, "sp": sp})
+            ex_none = self.new_block([self.agg(dest, OPT, 0, [], sp)], {"t": "goto", "to": cont, "sp": sp})
+            dl = self.new_local({"k": "prim", "n": "isize"})
+            dead = self.new_block([], {"t": "unreachable", "sp": sp})
+            ol = _bare_local(other)
+            sw = self.new_block([{"s": "assign", "p": {"l": dl, "p": []},
+                                  "rv": {"r": "discr", "p": copy.deepcopy(_place_of(other)),
+                                         "of": copy.deepcopy(self.c["locals"][ol].get("ty")) if ol is not None else {"k": "infer"}},
+                                  "sp": sp, "lowered": True}],
+                                {"t": "switch", "d": {"m": {"l": dl, "p": []}}, "dty": {"k": "prim", "n": "isize"},
+                                 "targets": [[0, ex_none], [1, ex_some]], "else": dead, "sp": sp})
+            return sw, [(ex_some, (OPT, 1, {"c": {"l": tup, "p": []}})), (ex_none, (OPT, 0, None))]
         if kind == "arg":
             ex = self.new_block([{"s": "assign", "p": copy.deepcopy(dest), "rv": {"r": "use", "o": copy.deepcopy(args[action[1]])}, "sp": sp}],
                                 {"t": "goto", "to": cont, "sp": sp})
@@ -687,7 +714,9 @@ class _Lower:
             # `x.ok_or(e)?` / `.map_err(f)?` on a plain value (also the `match` that try_stream! makes of `?`): the
             # rules read this spelling directly (discharge.unq); rewriting it would only put a merge in front of
             # the test that follows
-            if n.rsplit("::", 1)[-1] in ("ok_or", "ok_or_else", "map_err"):
+            # (unless the value is itself the merge of a rewritten combinator: then the test that follows is
+            # threaded into those arms afterwards)
+            if n.rsplit("::", 1)[-1] in ("ok_or", "ok_or_else", "map_err") and rl not in self.lowered_dests:
                 raise _NoLower()
             # ---- plain: switch on the receiver
             new_arms = []
@@ -731,6 +760,8 @@ class _Lower:
             _bare_local(t["args"][0]) == dest["l"] and not dest["p"]
 
     def _register(self, dest, cont, new_arms):
+        if not dest["p"]:
+            self.lowered_dests.add(dest["l"])
         if dest["p"] or not new_arms or any(a is None for a in new_arms):
             self.arms.pop(dest["l"], None)
             return
@@ -902,11 +933,30 @@ def thread_known_switches(bodies, max_chain=5, max_rounds=6):
                 for k, c in enumerate(chain):
                     nb = copy.deepcopy(blocks[c])
                     nb["threaded_from"] = c
+                    # a discriminant temporary (`d = discriminant(x); switch move d`) gets its own local in the
+                    # copy, so that it keeps a single definition
+                    st_t = nb["term"]
+                    if st_t["t"] == "switch" and _bare_local(st_t["d"]) is not None:
+                        dl_ = _bare_local(st_t["d"])
+                        dd = [s_ for s_ in nb["stmts"] if s_.get("s") == "assign" and s_["p"]["l"] == dl_ and not s_["p"]["p"]]
+                        if len(dd) == 1 and dd[0]["rv"]["r"] == "discr" and "m" in st_t["d"]:
+                            raw["locals"].append(copy.deepcopy(raw["locals"][dl_]))
+                            nl_ = len(raw["locals"]) - 1
+                            dd[0]["p"]["l"] = nl_
+                            st_t["d"] = {"m": {"l": nl_, "p": []}}
                     if k + 1 < len(chain):
                         nb["term"]["to"] = base + k + 1
                     else:
-                        nb["term"] = {"t": "goto", "to": decided, "sp": nb["term"].get("sp"), "threaded": True}
+                        # keep the switch (its edge labels carry meaning: "the Err edge of this Result"), but only the
+                        # decided edge remains; the others lead nowhere
+                        dead = base + len(chain)
+                        st_ = nb["term"]
+                        keep_else = st_["else"] == decided and not any(tb == decided for _, tb in st_["targets"])
+                        st_["targets"] = [[v_, (tb if tb == decided else dead)] for v_, tb in st_["targets"]]
+                        st_["else"] = decided if keep_else else dead
+                        st_["threaded"] = True
                     blocks.append(nb)
+                blocks.append({"cleanup": False, "stmts": [], "term": {"t": "unreachable", "sp": t.get("sp")}, "lowered": True})
                 t["to"] = base
                 n_thr += 1
                 changed = True
